@@ -9,6 +9,7 @@ import (
 	"github.com/yuin/goldmark/ast"
 
 	"verif/core"
+	"verif/wl"
 )
 
 // C13 — AST mutation API and Walk behave like a plain ordered tree (list-of-children model in lock-step).
@@ -131,6 +132,8 @@ func (o c13Op) String() string {
 		return fmt.Sprintf("n%d.RemoveChildren()", o.P)
 	case "sort":
 		return fmt.Sprintf("n%d.SortChildren(cmp%d)", o.P, o.Cmp)
+	case "sortNested":
+		return fmt.Sprintf("n%d.SortChildren(cmp%d whose first comparison calls n%d.SortChildren(cmp%d))", o.P, o.Cmp, o.C, o.Cmp)
 	}
 	return "?"
 }
@@ -152,6 +155,8 @@ func (m *c13Model) legal(o c13Op) bool {
 		if m.isAncestorOrSelf(o.C, o.P) {
 			return false
 		}
+	case "sortNested":
+		return o.C != o.P
 	}
 	return true
 }
@@ -262,7 +267,42 @@ func c13Real(nodes []ast.Node, ids map[ast.Node]int, o c13Op) {
 		p.RemoveChildren(p)
 	case "sort":
 		p.SortChildren(c13cmp(o.Cmp, ids))
+	case "sortNested":
+		// a comparator that itself sorts the children of an unrelated parent: two sorts in flight on different nodes
+		cmp := c13cmp(o.Cmp, ids)
+		c13NestedCalled = false
+		p.SortChildren(func(a, b ast.Node) int {
+			if !c13NestedCalled {
+				c13NestedCalled = true
+				nodes[o.C].SortChildren(cmp)
+			}
+			return cmp(a, b)
+		})
 	}
+}
+
+var c13NestedCalled bool
+
+// c13SortedRelation checks SortChildren's result on parent p: a permutation of before, sorted under cmp, no cycle.
+func c13SortedRelation(nodes []ast.Node, ids map[ast.Node]int, p int, before []int, cmpKind, n int) ([]int, string) {
+	var got []int
+	steps := 0
+	for c := nodes[p].FirstChild(); c != nil; c = c.NextSibling() {
+		got = append(got, ids[c])
+		if steps++; steps > n+2 {
+			return nil, "SortChildren produced a cyclic sibling chain"
+		}
+	}
+	if !samePerm(got, before) {
+		return nil, fmt.Sprintf("SortChildren changed the set of children of n%d: before %v after %v", p, before, got)
+	}
+	cmp := c13cmp(cmpKind, ids)
+	for j := 0; j+1 < len(got); j++ {
+		if cmp(nodes[got[j]], nodes[got[j+1]]) > 0 {
+			return nil, fmt.Sprintf("SortChildren result of n%d not sorted under cmp%d: %v", p, cmpKind, got)
+		}
+	}
+	return got, ""
 }
 
 // compare checks every accessor of every node against the model; returns "" or a description.
@@ -386,35 +426,32 @@ func c13RunSeq(n int, init [][2]int, ops []c13Op, onState func(m *c13Model)) (in
 		if !m.legal(o) {
 			continue
 		}
-		var before []int
-		if o.Kind == "sort" {
+		var before, beforeQ []int
+		if o.Kind == "sort" || o.Kind == "sortNested" {
 			before = append([]int(nil), m.kids[o.P]...)
+		}
+		if o.Kind == "sortNested" {
+			beforeQ = append([]int(nil), m.kids[o.C]...)
 		}
 		pv, st := core.Try(func() { c13Real(nodes, ids, o) })
 		c13Calls++
 		if pv != nil {
 			return i, fmt.Sprintf("panic in %s: %v\n%s", o, pv, trimStack(st))
 		}
-		if o.Kind == "sort" {
+		if o.Kind == "sort" || o.Kind == "sortNested" {
 			// relation: permutation of before, sorted under cmp, links consistent
-			var got []int
-			steps := 0
-			for c := nodes[o.P].FirstChild(); c != nil; c = c.NextSibling() {
-				got = append(got, ids[c])
-				if steps++; steps > n+2 {
-					return i, "SortChildren produced a cyclic sibling chain"
-				}
-			}
-			if !samePerm(got, before) {
-				return i, fmt.Sprintf("SortChildren changed the set of children: before %v after %v", before, got)
-			}
-			cmp := c13cmp(o.Cmp, ids)
-			for j := 0; j+1 < len(got); j++ {
-				if cmp(nodes[got[j]], nodes[got[j+1]]) > 0 {
-					return i, fmt.Sprintf("SortChildren result not sorted under cmp%d: %v", o.Cmp, got)
-				}
+			got, d := c13SortedRelation(nodes, ids, o.P, before, o.Cmp, n)
+			if d != "" {
+				return i, d
 			}
 			m.kids[o.P] = got
+			if o.Kind == "sortNested" && c13NestedCalled {
+				gq, d := c13SortedRelation(nodes, ids, o.C, beforeQ, o.Cmp, n)
+				if d != "" {
+					return i, "nested call: " + d
+				}
+				m.kids[o.C] = gq
+			}
 		} else {
 			m.apply(o)
 		}
@@ -640,7 +677,7 @@ func runC13(c *core.Ctx) {
 }
 
 func c13RandOps(r *rand.Rand, n, l int) []c13Op {
-	kinds := []string{"append", "append", "insertBefore", "insertBefore", "insertAfter", "insertAfter", "replace", "remove", "removeChildren", "sort"}
+	kinds := []string{"append", "append", "append", "insertBefore", "insertBefore", "insertAfter", "insertAfter", "replace", "remove", "removeChildren", "sort", "sort", "sortNested"}
 	ops := make([]c13Op, l)
 	// a few hub parents so that child lists grow
 	hubs := 1 + r.Intn(3)
@@ -803,6 +840,53 @@ func c13Walks(c *core.Ctx) {
 						k++
 						if c.Mine(k) {
 							c13WalkCase(c, n, tree, map[walkEvent]int{e1: o1, e2: o2})
+						}
+					}
+				}
+			}
+		}
+	}
+	// deep and wide trees at boundary sizes: a spine of h nodes, every spine node with a leaf sibling; one or two deviations
+	// near the root, in the middle and at the bottom (a walker that changes strategy beyond some depth or child count)
+	for _, h := range wl.BoundarySizes {
+		if h < 2 || h > 600 {
+			continue
+		}
+		for shape := 0; shape < 2; shape++ {
+			var tree [][2]int
+			n := 1
+			if shape == 0 {
+				prev := 0
+				for d := 1; d < h; d++ {
+					tree = append(tree, [2]int{prev, n}, [2]int{prev, n + 1})
+					prev = n
+					n += 2
+				}
+			} else {
+				for j := 1; j < h; j++ {
+					tree = append(tree, [2]int{0, n})
+					n++
+				}
+				tree = append(tree, [2]int{n - 1, n})
+				n++
+			}
+			var evs []walkEvent
+			for _, x := range []int{0, 1, 2, n / 2, n/2 + 1, n - 4, n - 3, n - 2, n - 1} {
+				if x >= 0 && x < n {
+					evs = append(evs, walkEvent{x, true}, walkEvent{x, false})
+				}
+			}
+			for i, e1 := range evs {
+				for o1 := 1; o1 <= 3; o1++ {
+					k++
+					if c.Mine(k) {
+						c13WalkCase(c, n, tree, map[walkEvent]int{e1: o1})
+						c.Count("walk_scripts_on_deep_or_wide_trees", 1)
+					}
+					if o1 == 1 && i+3 < len(evs) {
+						k++
+						if c.Mine(k) {
+							c13WalkCase(c, n, tree, map[walkEvent]int{e1: o1, evs[i+3]: 2})
 						}
 					}
 				}
